@@ -7,6 +7,7 @@
 import UVerif.Model.Sqrt
 import UVerif.Spec.Sqrt
 import UVerifProofs.Lemmas.Sqrt
+import UVerifProofs.Lemmas.SqrtPosit
 
 open UVerif UVerif.Posit UVerif.Fast UVerif.Generated UVerif.Sqrt
 
@@ -120,16 +121,80 @@ theorem C17_cfg_8_2_fast_counterexample : (positSqrtOk 8 2 5 (positSqrtFast 8 2 
 
 /-! ### statements that are NOT proved here (kept visible) -/
 
-/-- the general claim behind "correctly rounded ≤ 16 bits, faithful above" for the double detour, all (n, es) with a
-    double-representable value set: open (needs the no-double-rounding argument on 2·(fbits+2)+2 ≤ 53). Established only by the
-    exhaustive transcripts (every non-negative encoding of 34 configurations ≤ 16 bits) and by the finite lemmas above. -/
+/-- **The generic posit sqrt `posit(std::sqrt(double(a)))` satisfies C17, for every configuration** whose scale range fits
+    binary64 ((nbits-2)·2^es ≤ 2040) and whose (nbits+1)-bit cuts fit 53 bits (fbits ≤ 51), and every non-negative argument:
+    the result is the correctly rounded root (Posit-Standard midpoint, decided by squaring) when nbits ≤ 16, and one of the two
+    posits bracketing the root (the exact root when it is representable) above.
+    Proof (Lemmas/SqrtRN, SqrtFP, SqrtPosit): `sqrtBits 11 52` yields D = R·2^(e-52) with R the RNE integer of √(x·4^(52-e))
+    (`sqrtBits_spec`, on squares); D is monotone and exact against every 53-bit float (`SqrtDouble.mono`), which gives
+    faithfulness after the Standard rounding of D (`convert_correct` of C01 via `convertDyadic_spec`); for fbits ≤ 23 a cut
+    with ≤ 25 significant bits can only coincide with D if x is exactly its square (`rnSq_gap`: both x·4^(52-e) and the cut's
+    square are multiples of 2^56 while |x·4^(52-e) − R²| ≤ R + ¼ < 2^54), so D and √x compare alike with every
+    (nbits+1)-bit posit value and round alike — no double rounding. -/
+theorem C17_double_detour_faithful (n es a : Nat) (hn : 2 ≤ n) (hrange : (n - 2) * 2 ^ es ≤ 2040)
+    (hfb : fbitsOf n es ≤ 51) (ha : a < 2 ^ (n - 1)) (ht : rootsTable n es = none) :
+    (positSqrtOk n es a (positSqrtGeneric n es a)).1 = true :=
+  positSqrt_generic_ok n es a hn hrange hfb ha ht
+example : (positSqrtOk 32 2 0x5a000000 (positSqrtGeneric 32 2 0x5a000000)).1 = true :=
+  C17_double_detour_faithful 32 2 _ (by decide) (by decide) (by decide) (by decide) rfl
+
+/-- the statement that used to be open (n ≤ 32, es ≤ 3): an instance of the theorem above -/
 def C17_double_detour_faithful_full : Prop :=
   ∀ n es a, 2 ≤ n → n ≤ 32 → es ≤ 3 → a < 2 ^ (n - 1) → rootsTable n es = none →
     (positSqrtOk n es a (positSqrtGeneric n es a)).1 = true
 
-/-- monotonicity of the modelled sqrt on non-negative arguments: open as a theorem, checked pairwise on the transcripts -/
+theorem C17_double_detour_faithful_full_holds : C17_double_detour_faithful_full := by
+  intro n es a hn h32 hes ha ht
+  apply C17_double_detour_faithful n es a hn _ _ ha ht
+  · have h1 : 2 ^ es ≤ 2 ^ 3 := Nat.pow_le_pow_right (by norm_num) hes
+    have h2 : (n - 2) * 2 ^ es ≤ 30 * 2 ^ 3 := Nat.mul_le_mul (by omega) h1
+    omega
+  · have := fbitsOf_le n es
+    omega
+
+/-- **Monotonicity of the generic posit sqrt** on non-negative arguments a ≤ b, for every configuration whose scale range
+    fits binary64: RN53∘√ is monotone (`sqrtDouble_mono`: lower/upper midpoint bounds of neighbouring binades, ties decided by
+    parity) and the Standard's rounding is monotone (`nearestMag_mono`, via the unbounded encoding of C01). -/
+theorem C17_monotone_generic (n es a b : Nat) (hn : 2 ≤ n) (hrange : (n - 2) * 2 ^ es ≤ 2040)
+    (hab : a ≤ b) (hb : b < 2 ^ (n - 1)) (ht : rootsTable n es = none) :
+    positMonoOk n es a b (positSqrtGeneric n es a) (positSqrtGeneric n es b) = true :=
+  positSqrt_generic_mono n es a b hn hrange hab hb ht
+
+/-- the table-driven configurations are monotone on neighbouring non-negative arguments (regenerated tables) -/
+theorem C17_monotone_tables :
+    (∀ a < 3, positMonoOk 3 0 a (a + 1) (positSqrtGeneric 3 0 a) (positSqrtGeneric 3 0 (a + 1)) = true) ∧
+    (∀ a < 3, positMonoOk 3 1 a (a + 1) (positSqrtGeneric 3 1 a) (positSqrtGeneric 3 1 (a + 1)) = true) ∧
+    (∀ a < 7, positMonoOk 4 0 a (a + 1) (positSqrtGeneric 4 0 a) (positSqrtGeneric 4 0 (a + 1)) = true) ∧
+    (∀ a < 15, positMonoOk 5 0 a (a + 1) (positSqrtGeneric 5 0 a) (positSqrtGeneric 5 0 (a + 1)) = true) ∧
+    (∀ a < 127, positMonoOk 8 0 a (a + 1) (positSqrtGeneric 8 0 a) (positSqrtGeneric 8 0 (a + 1)) = true) ∧
+    (∀ a < 127, positMonoOk 8 1 a (a + 1) (positSqrtGeneric 8 1 a) (positSqrtGeneric 8 1 (a + 1)) = true) := by
+  decide +kernel
+
+theorem rootsTable_cases (n es : Nat) :
+    rootsTable n es = none ∨ (n = 3 ∧ es = 0) ∨ (n = 3 ∧ es = 1) ∨ (n = 4 ∧ es = 0) ∨ (n = 5 ∧ es = 0) ∨
+    (n = 8 ∧ es = 0) ∨ (n = 8 ∧ es = 1) := by
+  unfold rootsTable
+  split <;> simp
+
+/-- monotonicity on neighbouring arguments for every configuration with n ≤ 32, es ≤ 3 (tables and double detour) -/
 def C17_monotone_full : Prop :=
-  ∀ n es a, 2 ≤ n → a + 1 < 2 ^ (n - 1) → positMonoOk n es a (a + 1) (positSqrtGeneric n es a) (positSqrtGeneric n es (a + 1)) = true
+  ∀ n es a, 2 ≤ n → n ≤ 32 → es ≤ 3 → a + 1 < 2 ^ (n - 1) →
+    positMonoOk n es a (a + 1) (positSqrtGeneric n es a) (positSqrtGeneric n es (a + 1)) = true
+
+theorem C17_monotone_full_holds : C17_monotone_full := by
+  intro n es a hn h32 hes ha
+  obtain ⟨t1, t2, t3, t4, t5, t6⟩ := C17_monotone_tables
+  rcases rootsTable_cases n es with h | ⟨rfl, rfl⟩ | ⟨rfl, rfl⟩ | ⟨rfl, rfl⟩ | ⟨rfl, rfl⟩ | ⟨rfl, rfl⟩ | ⟨rfl, rfl⟩
+  · apply C17_monotone_generic n es a (a + 1) hn _ (by omega) ha h
+    have h1 : 2 ^ es ≤ 2 ^ 3 := Nat.pow_le_pow_right (by norm_num) hes
+    have h2 : (n - 2) * 2 ^ es ≤ 30 * 2 ^ 3 := Nat.mul_le_mul (by omega) h1
+    omega
+  · exact t1 a (by norm_num at ha; omega)
+  · exact t2 a (by norm_num at ha; omega)
+  · exact t3 a (by norm_num at ha; omega)
+  · exact t4 a (by norm_num at ha; omega)
+  · exact t5 a (by norm_num at ha; omega)
+  · exact t6 a (by norm_num at ha; omega)
 
 /-- the native fixpnt iteration returns 0 for the smallest positive argument in EVERY configuration (nbits ≥ 2, any rbits):
     x₀ = a >> 1 = 0 and |x₀² − a| = 1 ulp is not > epsilon, so the loop is never entered -/
